@@ -180,6 +180,13 @@ pub fn start_fsm_with_data_and_finish_mode(
                     }
                 }
                 sm.interpret(datamodel.deref_mut());
+                if let FinishMode::DISPOSE = finish_mode {
+                    // The session is gone, a <send> to it raises "error.communication" from now on.
+                    let executor = get_global!(datamodel).executor.clone();
+                    if let Some(mut executor) = executor {
+                        executor.remove_session(session_id);
+                    }
+                }
             }
             #[cfg(feature = "Debug")]
             debug!("SM finished");
@@ -3220,11 +3227,11 @@ impl Fsm {
             global.child_sessions.remove(invoke_id);
             global.cancelled_sessions.insert(session_id);
         }
-        datamodel.send(
-            SCXML_EVENT_PROCESSOR_SHORT_TYPE,
-            &Data::String(format!("{}{}", SCXML_TARGET_SESSION_ID_PREFIX, session_id)),
-            Event::new_simple(EVENT_CANCEL_SESSION),
-        );
+        // The invoked session may have finished (and been removed) already, this is no error.
+        let executor = get_global!(datamodel).executor.clone();
+        if let Some(executor) = executor {
+            let _ = executor.send_to_session(session_id, Event::new_simple(EVENT_CANCEL_SESSION));
+        }
         #[cfg(feature = "Trace_Method")]
         self.tracer.exit_method("cancelInvoke");
     }
